@@ -499,6 +499,11 @@ def amalgamate_csr_to_x(
     else:
         index_dtype = np.int32
 
+    if n_valid > 0:
+        chunks = min(n_valid, 20000)
+    else:
+        chunks = None
+
     with h5py.File(dst_path, 'a') as dst:
         grp = dst.create_group(dst_grp)
         grp.attrs.create(
@@ -511,14 +516,14 @@ def amalgamate_csr_to_x(
         dst_data = grp.create_dataset(
             'data',
             shape=(n_valid,),
-            chunks=min(n_valid, 20000),
+            chunks=chunks,
             dtype=data_dtype,
             compression=compression,
             compression_opts=compression_opts)
         dst_indices = grp.create_dataset(
             'indices',
             shape=(n_valid,),
-            chunks=min(n_valid, 20000),
+            chunks=chunks,
             dtype=index_dtype,
             compression=compression,
             compression_opts=compression_opts)
